@@ -208,6 +208,7 @@ class Seq:
         self.mon, self.rng = mon, rng
         self.world = world = gen.World(rng, nkeys=6)
         world.bad_key_prob = 0.08
+        world.odd_reward_prob = rng.choice([0.0, 0.25])
         world.grow(rng.choice([8, 12, 18]), rng, tx_prob=0.6, bias="mixed")
         self.sn = nodekit.SingleNode(world, rng, "c13-%d" % idx, npeers=2)
         self.ops = []
